@@ -35,6 +35,9 @@ pub enum Arr {
     Periodic,
     /// all occurrences of the first symbol packed at a pseudo-random place, rest shuffled
     Packed,
+    /// runs whose lengths are 2^k - 1, 2^k or 2^k + 1 (k up to the given log2): run boundaries fall
+    /// on and next to block / sampling boundaries
+    RunsPow2(u8),
     /// shuffled data followed (or, if the flag is set, preceded) by a run holding k/8 of the
     /// occurrences of the most frequent symbol: padded files, BWT-like tails
     Padded(bool, u8),
@@ -230,6 +233,21 @@ impl Recipe {
                     }
                 }
             }
+            Arr::RunsPow2(lg) => {
+                let mut left = counts.clone();
+                let mut alive: Vec<usize> = (0..d).collect();
+                while !alive.is_empty() {
+                    let a = rng.below_usize(alive.len());
+                    let j = alive[a];
+                    let k = rng.below(lg.clamp(1, 13) as u64 + 1) as u32;
+                    let run = (((1usize << k) + rng.below_usize(3)).saturating_sub(1)).clamp(1, left[j]);
+                    out.extend(std::iter::repeat(sym(j)).take(run));
+                    left[j] -= run;
+                    if left[j] == 0 {
+                        alive.swap_remove(a);
+                    }
+                }
+            }
             Arr::Padded(head, eighths) => {
                 // symbol 0 of `counts` is the most frequent one for every skewed profile
                 let pad = counts[0] * (eighths.clamp(1, 8) as usize) / 8;
@@ -366,6 +384,7 @@ fn arrangement() -> BoxedStrategy<Arr> {
         1 => Just(Arr::Periodic),
         1 => Just(Arr::Packed),
         2 => (any::<bool>(), 1u8..=8).prop_map(|(h, k)| Arr::Padded(h, k)),
+        2 => (8u8..=13).prop_map(Arr::RunsPow2),
     ]
     .boxed()
 }
